@@ -46,6 +46,8 @@ def gen_soft_stmt(d, g, depth):
 
 @hyp.composite
 def cases(d):
+    if d.chance(10):
+        return listsoft_cases(d)
     fs, en = gen.gen_fields(d, nmax=3, widths=[1, 2, 3], p_enum=8)
     def bits(f):
         return f["w"] if f["kind"] != "enum" else 2
@@ -127,6 +129,177 @@ def cases(d):
     return {"prog": prog, "calls": calls}
 
 
+# ----------------------------------------------------------------------------------------------
+# Soft constraints in the body of a foreach over a RANDOM-SIZE list: the soft of element i applies only when the solved
+# list has an element i (its guard is 'i < size').  Reference: (size, elements, x) enumerated; the soft terms are the
+# foreach body unrolled for every index the size bound admits, each guarded by the size.
+LS_MAX = 3
+
+
+def listsoft_cases(d):
+    lo = d.randint(0, 2)
+    hi = d.randint(max(lo, 1), LS_MAX)
+    i, x = ["iv", "i"], ["f", "x"]
+    eli = ["el", "l", ["iv", "i"], None]
+
+    def soft_body():
+        r = d.randint(0, 5)
+        if r == 0:
+            return ["bin", "==", x, i]
+        if r == 1:
+            return ["bin", "==", x, ["bin", "+", i, ["lit", d.randint(1, 4)]]]
+        if r == 2:
+            return ["bin", "==", eli, ["lit", d.randint(0, 3)]]
+        if r == 3:
+            return ["bin", "==", eli, x]
+        if r == 4:
+            return ["bin", "!=", x, i]
+        return ["bin", ">", eli, i]
+    stmts = [["expr", ["in", ["sz", "l"], [["rng", ["lit", lo], ["lit", hi]]]]]]
+    if d.chance(35):
+        stmts.append(["soft", ["bin", "==", x, ["lit", d.randint(0, 7)]]])
+    if d.chance(40):
+        stmts.append(d.choice([
+            ["expr", ["bin", "<=", x, ["lit", d.randint(2, 6)]]],
+            ["foreach", "l", "j", None, [["expr", ["bin", "<=", ["el", "l", ["iv", "j"], None], ["lit", d.randint(1, 2)]]]]],
+            ["foreach", "l", "j", None, [["expr", ["bin", ">=", x, ["iv", "j"]]]]],
+            ["uniql", "l"]]))
+    body = [["soft", soft_body()]]
+    if d.chance(30):
+        body.append(["soft", soft_body()])
+    stmts.append(["foreach", "l", "i", None, body])
+    if d.chance(25):
+        stmts.append(["soft", ["bin", "==", x, ["lit", d.randint(0, 7)]]])
+    calls = []
+    for _ in range(d.randint(1, 3)):
+        inl = []
+        r = d.randint(0, 99)
+        if r < 40:
+            inl.append(["expr", ["bin", "==", ["sz", "l"], ["lit", d.randint(lo, hi)]]])
+        elif r < 60:
+            inl.append(["expr", ["bin", "<=", ["sz", "l"], ["lit", d.randint(lo, hi)]]])
+        elif r < 75:
+            inl.append(["expr", ["bin", "!=", ["sz", "l"], ["lit", d.randint(lo, hi)]]])
+        if d.chance(25):
+            inl.append(["soft", ["bin", "==", x, ["lit", d.randint(0, 7)]]])
+        if d.chance(15):
+            inl.append(["soft", ["bin", "==", ["sz", "l"], ["lit", d.randint(lo, hi)]]])
+        calls.append({"kind": "randomize_with" if inl else "randomize", "seed": d.seed(), "inline": inl})
+    cls = {"name": "T",
+           "fields": [{"name": "x", "kind": "bit", "w": 3, "signed": False, "rand": True, "init": 0}],
+           "lists": [{"name": "l", "elem": {"kind": "bit", "w": 2, "signed": False}, "mode": "randsz", "init": []}],
+           "blocks": [{"name": "c0", "stmts": stmts}]}
+    return {"listsoft": True, "prog": {"enums": {}, "classes": [cls]}, "calls": calls}
+
+
+def ls_terms(stmts):
+    """soft terms in statement order: (index or None, expr); a foreach body is unrolled for every admissible index"""
+    out = []
+    for s_ in stmts:
+        if s_[0] == "soft":
+            out.append((None, None, s_[1]))
+        elif s_[0] == "foreach":
+            softs = [b[1] for b in s_[4] if b[0] == "soft"]
+            for i in range(LS_MAX):
+                for e in softs:
+                    out.append((i, s_[2], e))
+    return out
+
+
+def run_listsoft(case):
+    import itertools
+    prog = case["prog"]
+    cls = prog["classes"][0]
+    stmts = cls["blocks"][0]["stmts"]
+    info = {"conflict": False, "calls": 0}
+    ok_shape = (len(cls.get("lists", [])) == 1 and stmts and stmts[0][0] == "expr" and stmts[0][1][0] == "in"
+                and all(sem.well_formed(s_) for s_ in stmts)
+                and all(sem.well_formed(s_) for c_ in case["calls"] for s_ in (c_.get("inline") or [])))
+    if not ok_shape:
+        return [], info
+    types = {"x": cls["fields"][0], "l[]": cls["lists"][0]["elem"]}
+    reset_library()
+    try:
+        ns = render.build(prog)
+        obj = ns["T"]()
+    except Exception:
+        reset_library()
+        return [], info
+    states = []
+    for n in range(LS_MAX + 1):
+        for els in itertools.product(range(4), repeat=n):
+            for xv in range(8):
+                states.append((n, els, xv))
+
+    def ctx_of(st):
+        n, els, xv = st
+        env = {"x": xv, "#l": n}
+        for i_, v_ in enumerate(els):
+            env["l[%d]" % i_] = v_
+        return sem.Ctx(types, env)
+
+    def term_true(t, st):
+        i_, iv, e = t
+        c = ctx_of(st)
+        if i_ is not None:
+            if i_ >= st[0]:
+                return True        # the list has no element i: the soft does not apply
+            c.loop[iv] = (i_, "l")
+        return sem.truth(e, c)
+    for ci, call in enumerate(case["calls"]):
+        inline = call.get("inline") or []
+        hard = [s_ for s_ in stmts + inline if s_[0] != "soft"]
+        sols = [st for st in states if all(sem.holds(s_, ctx_of(st)) for s_ in hard)]
+        st_, exc = flat.do_call(ns, obj, call["kind"], inline if call["kind"] == "randomize_with" else None, call["seed"])
+        where = "call %d %s(seed=%d)" % (ci, call["kind"], call["seed"])
+        if st_ == "exc":
+            reset_library()
+            return [V("library_exception", "a call raised: " + exc.sig, case, "%s raised %s" % (where, exc.rep))], info
+        if not sols:
+            continue
+        info["calls"] += 1
+        if st_ == "sf":
+            return [V("soft_made_fatal", "SolveFailure although the hard constraints are satisfiable", case,
+                      "%s: %d hard solutions exist" % (where, len(sols)))], info
+        try:
+            got = (len(obj.l), tuple(int(v) for v in obj.l), int(obj.x))
+        except Exception as e:
+            reset_library()
+            return [V("library_exception", "reading back: " + type(e).__name__, case, where)], info
+        shown = {"l": list(got[1]), "x": got[2]}
+        if got not in set(sols):
+            return [V("hard_violated", "result violates a hard constraint", case, "%s returned %s" % (where, cjson(shown)))], info
+        terms = ls_terms(stmts) + ls_terms(inline)
+        if not terms:
+            continue
+        tv = {st: tuple(term_true(t, st) for t in terms) for st in sols}
+        mine = tv[got]
+        sat_idx = [i for i, b in enumerate(mine) if b]
+        for i, b in enumerate(mine):
+            if b:
+                continue
+            for st in sols:
+                t = tv[st]
+                if t[i] and all(t[j] for j in sat_idx):
+                    return [V("not_maximal", "a violated soft constraint could have been honoured with the satisfied ones", case,
+                              "%s returned %s; soft term #%d %s is false there but size=%d l=%s x=%d satisfies it together with every "
+                              "soft that holds at the result" % (where, cjson(shown), i, cjson(list(terms[i])), st[0], list(st[1]), st[2]))], info
+        if not any(all(t) for t in tv.values()):
+            info["conflict"] = True
+        S = list(sols)
+        for i in reversed(range(len(terms))):      # stated last = highest priority; inline terms are last
+            S2 = [st for st in S if tv[st][i]]
+            if S2:
+                S = S2
+        if got not in S:
+            return [V("priority_inversion", "result is not in the greedy-by-priority set (later soft wins; the soft of a list element "
+                      "applies only if the solved list has that element)", case,
+                      "%s returned %s with soft truth %s over terms %s; greedy set e.g. %s"
+                      % (where, cjson(shown), list(mine), cjson([list(t) for t in terms]),
+                         cjson([{"l": list(st[1]), "x": st[2]} for st in S[:3]])))], info
+    return [], info
+
+
 def text_of(case):
     src = render.program_source(case["prog"])
     for i, c in enumerate(case["calls"]):
@@ -160,6 +333,8 @@ def interleavings(seqs):
 
 
 def run_case(case):
+    if case.get("listsoft"):
+        return run_listsoft(case)
     prog = case["prog"]
     cls = flat.cls_of(prog)
     fields = cls["fields"]
@@ -258,6 +433,8 @@ def body(case, acc):
     vios, info = run_case(case)
     acc.case(case, info.get("conflict", False), sample=text_of(case))
     acc.label("calls judged", info.get("calls", 0))
+    if case.get("listsoft"):
+        acc.label("family: softs in a foreach over a random-size list")
     if info.get("conflict"):
         acc.label("soft set conflicts with hard set")
     if any(c.get("inline") for c in case["calls"]):
